@@ -88,6 +88,9 @@ def process_top(job):
         out['used'] = sorted(res.used)
         out['feas_checks'] = res.feas_checks
         out['undecided'] = sorted(set(res.undecided))
+        if res.normal_paths == 0 and not res.exc_paths and not res.undecided:
+            # every path died as infeasible (e.g. the assumed contract of a callee contradicts the state): nothing was proved
+            out['undecided'].append('no feasible path reaches the end of the function: the check would be vacuous')
         # contract kwarg solver_procs=1: discharge in-process (forking a solver pool costs seconds per entry, which
         # dominates for families of many small entries)
         results = solve.discharge_all(res.obligations, timeout_ms, procs=getattr(top, 'extra', {}).get('solver_procs', inner_procs), seed=seed, both=(tier == 'thorough'))
